@@ -55,6 +55,13 @@ def run(chk):
             isstr = e["type"]["name"] == "string"
             declared = [v["value"] for v in e["values"]]
             custom = (["zz.custom", ""] if isstr else [max(declared) + 977, 0 if 0 not in declared else max(declared) + 5])
+            if isstr:
+                # custom values that are NEAR a declared one (another case, a blank, one character more or less): they are custom values
+                # like any other and must come back unchanged
+                near = []
+                for v in declared[:3]:
+                    near += [v.upper(), v.capitalize(), v.swapcase(), v + " ", v[:-1], v + "x"]
+                custom += [x for x in dict.fromkeys(near) if x not in declared and x not in custom]
             if not isstr:
                 # the ends of the base type's range (uinteger / integer), as far as they are not declared values
                 base = next((e["type"]["name"] for e in mmv.doc["enumerations"] if e["name"] == en), "integer")
